@@ -260,9 +260,9 @@ SPEC = {
 CLAIM = {
     "category": "proof",
     "text": "Conversion clause — proof: theorems pos_to_offset_total, offset_le_len, offset_on_char_boundary (for ALL texts, incl. CRLF and multi-byte characters, and ALL positions, incl. past line ends and past the last line, the current pos_to_offset returns an offset <= len on a character boundary), extract_no_panic_iff (extract_text_range panics exactly when the end offset lies before the start offset), extract_no_panic_of_le (never for an ordered range) and extract_is_slice hold for the Lean model, a statement-by-statement mirror of crates/parol-ls/src/utils.rs that is tied to the code by an exhaustive differential run (all texts <= 6 units over a 5-letter alphabet with 1-, 2- and 4-byte characters, CR and LF x all positions up to (3,8)) through the harness binary pv_ls, which compiles the current parol-ls sources as its own modules; every reply is also judged by the oracle (offset <= len, on a boundary). The pre-repair function (finding F9) is kept as posToOffset false with checked counterexamples. "
-            "Handler clause — EXPLORATION only (labelled in the evidence under coverage.handler_exploration): hover, go-to-definition, document symbols, prepare-rename, rename, formatting and code-action requests are sent to a real Server (document opened through the server's own didOpen handler over an in-memory connection) at every position, including out-of-range ones, of the repository's grammars and of seeded broken variants, under catch_unwind; any panic is a violation with text+request as replay, except panics attributed to a listed finding by a structural predicate on (request, panic location, text) and confirmed counterfactually by re-running the same request on the text with only the trigger removed: F17 (formatting, debug assertion in format_impl.rs, comment after the last production) and F19 (hover, debug assertion in parol_ls_grammar.rs, more than one %t_type declaration).",
+            "Handler clause — EXPLORATION only (labelled in the evidence under coverage.handler_exploration): hover, go-to-definition, document symbols, prepare-rename, rename, formatting and code-action requests are sent to a real Server (document opened through the server's own didOpen handler over an in-memory connection) at every position, including out-of-range ones, of the repository's grammars and of seeded broken variants, under catch_unwind; any panic is a violation with text+request as replay, except panics attributed to a listed finding by a structural predicate on (request, panic location, text) and confirmed counterfactually by re-running the same request on the text with only the trigger removed: F17 (formatting, debug assertion in format_impl.rs, comment after the last production) and F22 (hover, debug assertion in parol_ls_grammar.rs, more than one %t_type declaration).",
     "design_ref": "DESIGN.md §6 C30",
-    "note": "Level is proof for the position-to-offset clause and exploration for 'handlers return without panicking' (no model of the handlers exists; absence of panics is only observed on the explored texts). Trusted: Lean kernel (propext, Quot.sound, Classical.choice), faithfulness of the hand-written model as observed by the differential run, Lean's String.fromUTF8? and Rust's str for transporting texts, harness and orchestrator. Known findings F17 and F19 (both debug assertions; release builds do not panic there) are reproduced on every run and reported as KNOWN-FINDING.",
+    "note": "Level is proof for the position-to-offset clause and exploration for 'handlers return without panicking' (no model of the handlers exists; absence of panics is only observed on the explored texts). Trusted: Lean kernel (propext, Quot.sound, Classical.choice), faithfulness of the hand-written model as observed by the differential run, Lean's String.fromUTF8? and Rust's str for transporting texts, harness and orchestrator. Known findings F17 and F22 (both debug assertions; release builds do not panic there) are reproduced on every run and reported as KNOWN-FINDING.",
     "technique": "Lean 4 proof over hand-written model + exhaustive differential correspondence check; catch_unwind exploration of the real server for the handler clause",
 }
 
